@@ -12,7 +12,7 @@ from sim import world as Wd
 ID = 'C06'
 LEVEL = 'exploration'
 ENGINE = 'history'
-BUDGET = {'quick': 2500, 'thorough': 100000}
+BUDGET = {'quick': 8000, 'thorough': 100000}
 WALL = {'quick': 45, 'thorough': 1500}
 RULE = ('one trash-restore per case: 1-4 trashed entries (file, dir, symlink) whose original locations are occupied by a generated '
         'destination kind (absent, file, empty file, empty/non-empty dir, symlink to file/dir, dangling symlink, self-loop), with and '
